@@ -299,6 +299,9 @@ func (d *Directory) OpenDirectory(name string) (*Directory, error) {
 // ReadContentNames queries the directory contents and returns their base names.
 // It does not return "." or ".." entries.
 func (d *Directory) ReadContentNames() ([]string, error) {
+	if err := verifFault("readdir", d.file.Name()); err != nil {
+		return nil, err
+	}
 	// If we've already performed a read on the directory's contents, then we
 	// need to rewind the directory before performing another read.
 	if d.exhausted {
